@@ -122,6 +122,11 @@ def check(run):
     run.corr["cases"] += len(treq)
     run.corr["distribution"]["parsed-tree"] = len(treq)
 
+    # the text -> pairs step below that: the PEG model of asm.pest (Model/Peg.v on Gen/AsmGrammar.v)
+    # against the pest parser itself (hook etk_asm::verif_parse_pairs), well-formed and malformed texts
+    from checks import pegcorr
+    peg_dis = pegcorr.report(run)
+
     def oracle(c, ans):
         k = answer_kind(ans)
         if k in ("panic", "crash"):
@@ -161,7 +166,11 @@ def check(run):
     if tree_bad:
         run.log(f"PARSED TREE DIFFERS ({len(tree_bad)}): {tree_bad[0]['parsed'][:300]!r} vs {tree_bad[0]['expected'][:300]!r}")
         run.violation_unproved("correspondence: parser's syntax tree vs the generator's tree (text -> AST step)", tree_bad[0])
+    if peg_dis:
+        d = peg_dis[0]
+        run.violation_unproved("correspondence: PEG model of asm.pest (Model/Peg.v) vs the pest parser (pairs of Rule::program)",
+                               dict(text=d["text"][:2000], hex=d["hex"][:4000], pest=str(d["impl"])[:1500], model=str(d["model"])[:1500], n=len(peg_dis)))
     rc = asmfam.run_family(run, "C02", cases, oracle,
-                           "every mnemonic once; random programs over all zero-operand opcodes and push1..32 with boundary/random values in all radices, labels and definitions interleaved, printed with random indentation, blank lines, comments and `;` separators; each source assembled twice; a macro program with random label suffixes assembled 8 times; distinct = distinct sources",
+                           "every mnemonic once; random programs over all zero-operand opcodes and push1..32 with boundary/random values in all radices, labels and definitions interleaved, printed with random indentation, blank lines, comments and `;` separators; each source assembled twice; a macro program with random label suffixes assembled 8 times; distinct = distinct sources; peg:*: the PEG model of asm.pest vs pest's pairs on generated programs in random layouts, programs over every statement kind of the grammar, and a malformed stream (hand-written odd texts, mutations, truncations, splices)",
                            "statement encoding")
     return rc
